@@ -169,6 +169,21 @@ theorem reparse_same_tree (G : Table) (hp : PrintWF G = true) (hi : IdsOK G = tr
   rw [hrt]
   exact h
 
+/-- The specification has no memory: whatever was parsed, printed or edited before (`pre`, starting from any
+object state `st`), the answer to `from_text(src)` is the answer it has on its own — in particular it depends on
+every character of `src`, white space inside literals and the line feed ending a comment included.  (True by
+construction of the model; stated because the implementation is compared against it step by step in the
+harness stream `hist`.) -/
+theorem parse_history_independent (G : Table) (st : Option Tree) (pre : List HStep) (src : Text) :
+    (runHistory G st (pre ++ [HStep.parse src])).getLast? = (runHistory G none [HStep.parse src]).getLast? := by
+  rw [runHistory_append]
+  have h : ∀ s : Option Tree, runHistory G s [HStep.parse src] = [(hstep G none (HStep.parse src)).2] := by
+    intro s
+    simp only [runHistory, hstep]
+    cases parseText G src <;> rfl
+  rw [h, h, List.getLast?_append]
+  simp
+
 /-- NOT PROVED (stretch goal of the design): a token sequence has at most one tree.  `ParseWF` is the decidable
 hypothesis it is planned under; the statement is kept here at full strength, no theorem in this file depends on
 it.  `reparse_same_tree` gives the second half of the property for the model parser (a function of the token
